@@ -221,7 +221,15 @@ func main() {
 				for i, h := range f[2:] {
 					argv[i] = unhex(h)
 				}
+				before := append([]string(nil), argv...)
 				dec := in.db.VerifAuthorize(in.conn(id), argv)
+				for i := range before {
+					if argv[i] != before[i] {
+						// the gate judges a command, it must not rewrite it (the handler runs on the same slice)
+						dec += fmt.Sprintf(" argv-rewritten[%d]", i)
+						break
+					}
+				}
 				fmt.Fprintf(out, "Z %s\n", dec)
 				if f[0] == "AD" && dec == "deny" {
 					res, herr, pan := in.db.VerifHandle(in.conn(id), encode(argv))
